@@ -14,9 +14,11 @@ import (
 	"bytes"
 	"fmt"
 	"hash/fnv"
+	"os"
 	"runtime"
 	"sort"
 	"strconv"
+	"strings"
 	"sync"
 	"sync/atomic"
 	"testing"
@@ -209,6 +211,14 @@ func (r *Run) notify() {
 }
 
 func (r *Run) park(t *Task, site string) {
+	if traceAll {
+		for skip := 2; skip < 6; skip++ {
+			if _, file, line, ok := runtime.Caller(skip); ok && !strings.Contains(file, "internal/zsim") {
+				site += "#" + file[strings.LastIndex(file, "/")+1:] + ":" + strconv.Itoa(line)
+				break
+			}
+		}
+	}
 	r.mu.Lock()
 	t.state = stParked
 	t.site = site
@@ -681,8 +691,15 @@ func (r *Run) schedule() {
 	}
 }
 
+var traceAll = os.Getenv("ZSIM_TRACE") != ""
+
 func (r *Run) pick(en []*Task) *Task {
 	if len(en) == 1 {
+		if traceAll {
+			r.mu.Lock()
+			r.log = append(r.log, "  (only) "+en[0].ID+"@"+en[0].site+" t="+time.Since(r.start).String())
+			r.mu.Unlock()
+		}
 		return en[0]
 	}
 	// tasks that called Gosched step back while others can run
